@@ -209,8 +209,8 @@ class SteadyDetonationReactionZone(ExactSolver):
         # assign xvec into the solution object
         #
 
+        names = ['position'] + varnames
         xsolution['position'] = xvec
 
-        return ExactSolution(xsolution.values(),
-                             names=list(xsolution.keys()))
+        return ExactSolution([xsolution[n] for n in names], names=names)
 
